@@ -9,7 +9,8 @@ emit(shape, rotation, layout) -> (text, nodes): nodes in document order, each
        decl: name=(s,e), value=(s,e), semicolon=position of ';' or None, tokens=[(s,e)...] value tokens where recorded)
 """
 
-SELECTORS = ['a', 'a:hover', 'a::before', '@media (min-width: 1px)', 'a[t="}"]', '.b > c', '&:hover']
+SELECTORS = ['a', 'a:hover', 'a::before', '@media (min-width: 1px)', 'a[t="}"]', '.b > c', '&:hover', 'b:first-child a:hover',
+             'a:not(:hover)::after']
 DECLS = [('b', 'c'), ('b', 'c d'), ('$v', '1px'), ('--x', 'y'), ('b', '"x;y{}"'), ('b', 'url(a)'), ('b', 'c /* ; */ d')]
 DECLS_PAREN = [('b', 'url(a;b)'), ('b', 'f({)')]
 COMMENT = '/* } ; : { */'
@@ -22,6 +23,8 @@ DECLS_TOKENS = [
     ('b', 'c', [(0, 1)]),
     ('$v', '1px', [(0, 3)]),
     ('b', '"x;y" d', [(0, 5), (6, 7)]),
+    ('b', 'f(g(a) b) c', [(0, 9), (10, 11)]),
+    ('b', 'f(g(1, 2) + 3) d', [(0, 14), (15, 16)]),
 ]
 
 
